@@ -18,6 +18,7 @@ import (
 	"sort"
 	"strconv"
 	"strings"
+	"sync"
 	"testing"
 	"time"
 
@@ -617,5 +618,66 @@ func TestSessionHistories(t *testing.T) {
 			}
 		}
 		return h
+	})
+}
+
+// ---------------------------------------------------------------- (3) concurrent use of one session
+
+type Conc struct {
+	Clients int   `json:"clients"`
+	AgeMs   int64 `json:"age_ms"` // the shared session expires this far from now (inside the sliding-extension zone)
+	Logins  int   `json:"logins"` // concurrent fresh logins going on meanwhile
+}
+
+var subConc = ev.Register("session-concurrency",
+	"2-12 clients use one session cookie at the same moment while its expiry lies inside the sliding-extension zone (so every request may extend it), with concurrent logins and logouts of other sessions; oracle: a live cookie is never refused and nothing panics; this is mainly a workload for the race detector (C15); non-trivial = always; distinct by case",
+	func(c Conc, o *ev.Obs) *ev.Failure {
+		st, sid := login("bob", goodPassword+"bob")
+		if st != 200 {
+			return ev.Failf("login.valid-rejected", "login answered %d", st)
+		}
+		sess, _ := auth.GetSession(sid)
+		defer func() {
+			if sess != nil {
+				sess.Destroy()
+			}
+		}()
+		sess.ExpiresAt = time.Now().Add(time.Duration(c.AgeMs) * time.Millisecond)
+		o.NonTrivial = true
+		errs := make(chan *ev.Failure, c.Clients+c.Logins)
+		var wg sync.WaitGroup
+		for i := 0; i < c.Clients; i++ {
+			wg.Add(1)
+			go func() {
+				defer wg.Done()
+				for k := 0; k < 3; k++ {
+					code, _, _ := do(reqSpec{Method: "GET", Path: "/api/version", Cookie: sid})
+					if code == 401 || code == 0 {
+						errs <- ev.Failf("auth.live-session-refused:concurrent", "a live session used by %d clients at once was answered %d", c.Clients, code)
+						return
+					}
+				}
+			}()
+		}
+		for i := 0; i < c.Logins; i++ {
+			wg.Add(1)
+			go func() {
+				defer wg.Done()
+				if code, s2 := login("alice", goodPassword+"alice"); code == 200 {
+					do(reqSpec{Method: "POST", Path: "/api/auth/logout", Cookie: s2})
+				}
+			}()
+		}
+		wg.Wait()
+		close(errs)
+		for f := range errs {
+			return f
+		}
+		return nil
+	})
+
+func TestSessionConcurrency(t *testing.T) {
+	subConc.CheckSalt(t, 3, ev.N(40, 2000), func(t *rapid.T) Conc {
+		return Conc{Clients: rapid.IntRange(2, 12).Draw(t, "clients"), AgeMs: rapid.SampledFrom([]int64{2000, 60000, 540000, 599000}).Draw(t, "age"), Logins: rapid.IntRange(0, 4).Draw(t, "logins")}
 	})
 }
